@@ -954,6 +954,10 @@ private:
          case 0: en = snprintf(big.data(), big.size(), "%s", b.p); retRef(fs->sprintf("%s", b.p)); break;
          case 1: en = snprintf(big.data(), big.size(), "%d:%s", num, b.p); retRef(fs->sprintf("%d:%s", num, b.p)); break;
          case 2: en = snprintf(big.data(), big.size(), "%*d", width, num); retRef(fs->sprintf("%*d", width, num)); break;
+         // conversion error inside vsnprintf (a wide character that the "C" locale cannot represent): the formatter fails
+         // after it has written the first characters; the string must stay well-formed (content not judged)
+         case 4: en = snprintf(big.data(), big.size(), "abc%lc", (wint_t)0x20ac); retRef(fs->sprintf("abc%lc", (wint_t)0x20ac)); break;
+         case 5: en = snprintf(big.data(), big.size(), "%ls", L"xy\u20ac"); retRef(fs->sprintf("%ls", L"xy\u20ac")); break;
          default: en = snprintf(big.data(), big.size(), "[%s|%s]", b.p, b.p); retRef(fs->sprintf("[%s|%s]", b.p, b.p)); break;
          }
          mutated(en >= 0 && size_t(en) < big.size(), cut(std::string(big.data(), size_t(std::max(en, 0)))));
